@@ -104,11 +104,17 @@ class C19(Prop):
                                          'code': st.sampled_from(['value', 'callable', 'none', 'absent']),
                                          'env': st.booleans(), 'v': st.integers(0, 5)})
         plist = st.lists(st.sampled_from(PREFIXES), max_size=3, unique=True)
+        # text as people write it: trailing separators, doubled separators, dot segments, relative, padded
+        raw = PREFIXES + ['/app/pkg/', '/app/', '/app//pkg', '/app/pkg/../vendor', '/app/./pkg', 'app/pkg', '/app/pkg ',
+                          '']       # an empty element: a doubled or trailing comma
+        plist_raw = st.lists(st.sampled_from(raw), max_size=3, unique=True)
         parity = st.one_of(
             fd({'mode': st.just('parity'), 'key': st.just('POLL_TIMER'),
                                    'value': st.sampled_from([5, 10, 1000, 2.5, 60])}),
             fd({'mode': st.just('parity'), 'key': st.just('SERVICE_SECURE'),
-                                   'value': st.sampled_from(['True', 'False', 'false', 'true', 'no', '1'])}),
+                                   # in code the natural way to write it is the Python bool; the environment form of
+                                   # that is its text
+                                   'value': st.sampled_from(['True', 'False', 'false', 'true', 'no', '1', True, False])}),
             fd({'mode': st.just('parity'), 'key': st.just('SERVICE_URL'),
                                    'value': st.sampled_from(['localhost:1234', 'deep.example:443', 'x:1'])}),
             fd({'mode': st.just('parity'), 'key': st.just('LOGGING_CONF'),
@@ -117,9 +123,9 @@ class C19(Prop):
                                    'value': st.just('deep.api.auth.BasicAuthProvider'),
                                    'user': st.sampled_from(['bob', 'ü', '']), 'password': st.sampled_from(['pw', 'p:w', ''])}),
             fd({'mode': st.just('parity'), 'key': st.sampled_from(['IN_APP_INCLUDE', 'IN_APP_EXCLUDE']),
-                                   'value': plist.filter(lambda l: len(l) >= 1).map(','.join)}),
+                                   'value': plist_raw.filter(lambda l: len(l) >= 1).map(','.join)}),
             fd({'mode': st.just('parity'), 'key': st.just('APP_ROOT'),
-                                   'value': st.sampled_from(PREFIXES)}))
+                                   'value': st.sampled_from([x for x in raw if x])}))
         classify = fd({'mode': st.just('classify'), 'include': plist, 'exclude': plist,
                                           'root': st.sampled_from(PREFIXES + ['', '/nowhere']),
                                           'form': st.sampled_from(['list', 'string', 'env'])})
@@ -307,7 +313,7 @@ class C19(Prop):
         if key == 'SERVICE_URL' and oc['channel'][1] != v:
             out.violate('SERVICE_URL does not reach the channel')
         if key == 'SERVICE_SECURE':
-            exp = 'secure' if v.lower() in ('yes', 'true', 't', '1', 'y') else 'insecure'
+            exp = 'secure' if str(v).lower() in ('yes', 'true', 't', '1', 'y') else 'insecure'
             if oc['channel'][0] != exp:
                 out.violate('SERVICE_SECURE does not select the channel kind', {'value': v, 'got': oc['channel'][0]})
         if key == 'LOGGING_CONF' and oc.get('logging_conf') != v:
@@ -315,7 +321,7 @@ class C19(Prop):
         if key == 'POLL_TIMER' and oc['timer_interval'] != float(v):
             out.violate('POLL_TIMER does not set the timer interval')
         if key in ('IN_APP_INCLUDE', 'IN_APP_EXCLUDE', 'APP_ROOT'):
-            parts = v.split(',') if key != 'APP_ROOT' else [v]
+            parts = [x for x in v.split(',') if x] if key != 'APP_ROOT' else [v]      # an empty element names no prefix
             inc = parts if key == 'IN_APP_INCLUDE' else []
             exc = parts if key == 'IN_APP_EXCLUDE' else []
             root = v if key == 'APP_ROOT' else '/app'
